@@ -52,7 +52,17 @@ def generate(rng, cfg: Dict) -> Dict:
         elif k == "setslice":
             ops.append([k, c.int(0, 4), c.int(0, 5), some(0, 3)])
         elif k == "retire":
-            ops.append([k, c.pick(elems)])
+            victim = c.pick(elems)
+            if kind == "list" and c.chance(0.6):
+                # the element is first pushed out of the field by an item assignment
+                ops.append(["setitem", c.int(0, 3), c.pick([e for e in elems if e != victim] or elems)])
+            ops.append([k, victim])
+            if c.chance(0.6):
+                # ... and a brand-new element (most likely allocated where the retired one was) is written right away
+                new_serial = 10 + len(elems)
+                elems.append(new_serial)
+                ops.append(["create_elem", new_serial])
+                ops.append(["append", new_serial] if kind == "list" else ["add", new_serial])
         elif k == "create_elem":
             new_serial = 10 + len(elems)
             elems.append(new_serial)
@@ -159,7 +169,8 @@ def execute(scenario: Dict) -> Dict:
                     pop.cls_of.pop(e, None)
                     ever.discard(e)
                     retired.add(e)
-                    gc.collect()
+                    # no collection here: the element is not part of a cycle and dies with its last reference, and its
+                    # address is most likely to be reused when nothing else is freed in between
                     counters.inc("fault.element_retired")
                 else:
                     counters.inc("ops_skipped")
